@@ -2,8 +2,8 @@
   Lemmas for C16 (rendered reports): the colour code path is the plain code
   path up to painting; rendering never panics on canonical displays; every line
   of the widened span is printed exactly once, in order; gutters are aligned;
-  the riser state machine of highlight.rs agrees with the index-based layout
-  specification on well-behaved highlights.
+  the (repaired) riser state machine of highlight.rs agrees with the index-based
+  layout specification for highlights of every shape.
 -/
 import TephraProofs.Window
 import TephraModel.Spec.RenderSpec
@@ -449,133 +449,354 @@ theorem writeSpanDisplay_shape (m : Metrics) (a mid z : Text) (hwf : Text.WF (a 
 
 /-! ### 5. layout: the riser state machine against the index-based specification -/
 
-/-- the highlights on which the layout theorem is proved -/
-def HlOK (first last : Nat) (h : Highlight) : Prop :=
-  wellBehaved first last h = true ∧ h.startMsg = none ∧ ∃ msg, h.endMsg = some msg
-
-def rowLine : RowId → Nat
-  | .src l => l
-  | .mark l _ => l
+/-- the highlights on which the layout theorem is proved: no start message, an end message
+(what `Highlight::new` builds) -/
+def HlOK (h : Highlight) : Prop := h.startMsg = none ∧ ∃ msg, h.endMsg = some msg
 
 def rowAct : RowId → Option Nat
   | .src _ => none
   | .mark _ k => some k
 
-/-- does the end-mark row of highlight `(h, k)` occur among the first `i` rows -/
-def endSeen (ids : List RowId) (h : Highlight) (k i : Nat) : Bool :=
-  (ids.take i).any (· == RowId.mark h.span.e.line k)
+/-- position of a row within the block of its line: the source row, then the mark rows in
+highlight order -/
+def rpos : RowId → Nat
+  | .src _ => 0
+  | .mark _ k => k + 1
 
-/-- closed form of the riser state of highlight `(h, k)` before row `i` -/
-def stateAt (ids : List RowId) (h : Highlight) (k i : Nat) : Riser :=
-  if !h.isMultiline then .unused
-  else if i = 0 then .waiting
-  else if endSeen ids h k i then .ended else .started
+/-- the order in which rows are printed -/
+def rlt (a b : RowId) : Prop := a.line < b.line ∨ (a.line = b.line ∧ rpos a < rpos b)
 
-theorem findIdx_le_iff {α} (p : α → Bool) : ∀ (l : List α) (i : Nat),
-    (match l.findIdx? p with
-      | some e => decide (i ≤ e)
-      | none => true) = !(l.take i).any p := by
-  intro l
-  induction l with
-  | nil => intro i; simp
-  | cons x xs ih =>
-    intro i
-    rw [List.findIdx?_cons]
-    cases i with
-    | zero => by_cases hx : p x <;> simp [hx] <;> split <;> simp
-    | succ j =>
-      by_cases hx : p x
-      · simp [hx]
-      · have := ih j
-        simp only [hx, Bool.false_eq_true, if_false, List.take_succ_cons, List.any_cons, Bool.false_or]
-        rw [← this]
-        cases xs.findIdx? p <;> simp
+instance (a b : RowId) : Decidable (rlt a b) := by unfold rlt; infer_instance
 
-/-- the specification's riser character, in closed form, for a well-behaved multi-line highlight
-of a display whose first row is the source row of the highlight's start line -/
-theorem riserChar_closed (tail : List RowId) (h : Highlight) (k i : Nat) (hcol : h.span.s.col = 0) :
-    riserChar (RowId.src h.span.s.line :: tail) h k i =
-      if i = 0 then "/" else if endSeen (RowId.src h.span.s.line :: tail) h k i then " " else "|" := by
-  have hle := findIdx_le_iff (· == RowId.mark h.span.e.line k) (RowId.src h.span.s.line :: tail) i
-  unfold riserChar endSeen
-  simp only [hcol, beq_self_eq_true, if_true]
-  generalize List.findIdx? (fun x => x == RowId.mark h.span.e.line k)
-    (RowId.src h.span.s.line :: tail) = o at hle ⊢
-  generalize (List.take i (RowId.src h.span.s.line :: tail)).any
-    (fun x => x == RowId.mark h.span.e.line k) = b at hle ⊢
-  rw [List.findIdx?_cons]
-  cases o <;> cases i <;> cases b <;> simp_all
+theorem row_eq_iff (a b : RowId) : a = b ↔ a.line = b.line ∧ rpos a = rpos b := by
+  cases a <;> cases b <;> simp [RowId.line, rpos]
 
-theorem hasMsg_single {h : Highlight} {first last : Nat} (hok : HlOK first last h)
-    (hm : h.isMultiline = false) (l : Nat) :
-    h.hasMessageForLine l = (h.span.s.line == l) ∧ hasMark h l = (h.span.s.line == l) := by
-  obtain ⟨_, hs, msg, he⟩ := hok
-  simp only [Highlight.isMultiline, bne_eq_false_iff_eq] at hm
-  constructor
-  · simp only [Highlight.hasMessageForLine, hs, he, hm]
-    cases h.span.e.line == l <;> simp
-  · simp [hasMark, Highlight.isMultiline, hm]
+def startRow (h : Highlight) (k : Nat) : RowId :=
+  if h.span.s.col == 0 then RowId.src h.span.s.line else RowId.mark h.span.s.line k
 
-theorem hasMsg_multi {h : Highlight} {first last : Nat} (hok : HlOK first last h)
-    (hm : h.isMultiline = true) (l : Nat) :
-    h.span.s.col = 0 ∧ h.span.s.line = first ∧ h.span.e.col ≠ 0 ∧ h.span.s.line ≠ h.span.e.line ∧
-    h.hasMessageForLine l = (h.span.e.line == l) ∧ hasMark h l = (h.span.e.line == l) := by
-  obtain ⟨hw, hs, msg, he⟩ := hok
-  simp only [wellBehaved, hm, Bool.not_true, Bool.false_or, Bool.and_eq_true, beq_iff_eq,
-    bne_iff_ne, ne_eq, decide_eq_true_eq] at hw
-  obtain ⟨⟨⟨h1, h2⟩, h3⟩, h4⟩ := hw
-  have hne : h.span.s.line ≠ h.span.e.line := by
-    simpa [Highlight.isMultiline] using hm
-  refine ⟨h1, h2, h3, hne, ?_, ?_⟩
-  · simp [Highlight.hasMessageForLine, hs, he, h1]
-  · simp [hasMark, hm, h1]
+def endRow (h : Highlight) (k : Nat) : RowId := RowId.mark h.span.e.line k
 
-theorem endSeen_succ (ids : List RowId) (h : Highlight) (k i : Nat) (r : RowId)
+/-- the two normalisation steps at the top of `writeRiser` -/
+def normSt (h : Highlight) (line : Nat) (st : Riser) : Riser :=
+  let st := if st == .waiting && line > h.span.s.line then Riser.started else st
+  if st == .started && line > h.span.e.line then Riser.ended else st
+
+/-- the rest of `writeRiser` (plain) -/
+def riserCore (h : Highlight) (line : Nat) (st : Riser) (active : Bool) : String × Riser :=
+  match st with
+  | .unused => ("", .unused)
+  | .ended => (" ", .ended)
+  | .waiting =>
+    if line == h.span.s.line && !active && h.span.s.col == 0 && !h.hasMessageForLine line then ("/", .started)
+    else if line == h.span.s.line && active then (" ", .started)
+    else (" ", .waiting)
+  | .started =>
+    if line == h.span.e.line && !active && h.span.e.col == 0 && !h.hasMessageForLine line then ("\\", .ended)
+    else if line == h.span.e.line && active then ("|", .ended)
+    else ("|", .started)
+
+theorem writeRiser_eq (h : Highlight) (line : Nat) (st : Riser) (active : Bool) :
+    writeRiser plainPaint false h line st active = riserCore h line (normSt h line st) active := by
+  unfold writeRiser normSt riserCore
+  simp only [Bool.false_eq_true, if_false]
+  rfl
+
+/-- the normalised state of the riser of highlight `(h, k)` at row `r`, in closed form -/
+def expSt (h : Highlight) (k : Nat) (r : RowId) : Riser :=
+  if rlt (startRow h k) r then (if rlt (endRow h k) r then .ended else .started) else .waiting
+
+/-- the specified riser character at row `r`, in closed form -/
+def charK (h : Highlight) (k : Nat) (r : RowId) : String :=
+  if r = startRow h k then (if h.span.s.col == 0 then "/" else " ")
+  else if rlt (startRow h k) r ∧ ¬ rlt (endRow h k) r then "|" else " "
+
+theorem hasMsg_eq {h : Highlight} (hok : HlOK h) (l : Nat) :
+    h.hasMessageForLine l = ((h.span.s.line == l && h.span.s.col != 0) || h.span.e.line == l) := by
+  obtain ⟨hs, msg, he⟩ := hok
+  simp [Highlight.hasMessageForLine, hs, he]
+
+theorem startRow_line (h : Highlight) (k : Nat) : (startRow h k).line = h.span.s.line := by
+  unfold startRow; split <;> rfl
+
+theorem startRow_pos (h : Highlight) (k : Nat) :
+    rpos (startRow h k) = if h.span.s.col = 0 then 0 else k + 1 := by
+  unfold startRow; split <;> simp_all [rpos]
+
+theorem endRow_line (h : Highlight) (k : Nat) : (endRow h k).line = h.span.e.line := rfl
+
+theorem endRow_pos (h : Highlight) (k : Nat) : rpos (endRow h k) = k + 1 := rfl
+
+theorem rowAct_eq (r : RowId) (k : Nat) : (rowAct r == some k) = (rpos r == k + 1) := by
+  cases r <;> simp [rowAct, rpos]
+
+theorem rlt_start (h : Highlight) (k : Nat) (r : RowId) :
+    rlt (startRow h k) r ↔ h.span.s.line < r.line ∨
+      (h.span.s.line = r.line ∧ (if h.span.s.col = 0 then 0 else k + 1) < rpos r) := by
+  simp only [rlt, startRow_line, startRow_pos]
+
+theorem rlt_end (h : Highlight) (k : Nat) (r : RowId) :
+    rlt (endRow h k) r ↔ h.span.e.line < r.line ∨ (h.span.e.line = r.line ∧ k + 1 < rpos r) := by
+  simp only [rlt, endRow_line, endRow_pos]
+
+theorem eq_start (h : Highlight) (k : Nat) (r : RowId) :
+    r = startRow h k ↔ r.line = h.span.s.line ∧ rpos r = (if h.span.s.col = 0 then 0 else k + 1) := by
+  simp only [row_eq_iff, startRow_line, startRow_pos]
+
+theorem core_out {h : Highlight} (hok : HlOK h) (hm : h.span.s.line ≠ h.span.e.line) (k : Nat) (r : RowId) :
+    (riserCore h r.line (expSt h k r) (rowAct r == some k)).1 = charK h k r := by
+  simp only [expSt, charK, rlt_start, rlt_end, eq_start, rowAct_eq, riserCore, hasMsg_eq hok]
+  generalize r.line = L
+  generalize rpos r = P
+  generalize h.span.s.line = sl at *
+  generalize h.span.e.line = el at *
+  generalize h.span.s.col = sc
+  generalize h.span.e.col = ec
+  by_cases hc : sc = 0 <;> simp only [hc, if_true, if_false]
+  all_goals grind
+
+theorem core_step {h : Highlight} (hok : HlOK h) (hm : h.span.s.line ≠ h.span.e.line) (k : Nat)
+    (r r' : RowId) (hlt : rlt r r')
+    (hS : ¬ (rlt r (startRow h k) ∧ rlt (startRow h k) r') ∨
+      (r.line ≠ h.span.s.line ∧ r'.line ≠ h.span.s.line))
+    (hE : ¬ (rlt r (endRow h k) ∧ rlt (endRow h k) r') ∨
+      (r.line ≠ h.span.e.line ∧ r'.line ≠ h.span.e.line)) :
+    normSt h r'.line (riserCore h r.line (expSt h k r) (rowAct r == some k)).2 = expSt h k r' := by
+  generalize hst : expSt h k r = st
+  simp only [rlt, startRow_line, startRow_pos, endRow_line, endRow_pos] at hlt hS hE
+  simp only [expSt, rlt_start, rlt_end] at hst ⊢
+  cases st <;> simp only [riserCore, rowAct_eq, hasMsg_eq hok, normSt]
+  all_goals
+    generalize r.line = L at *
+    generalize rpos r = P at *
+    generalize r'.line = L' at *
+    generalize rpos r' = P' at *
+    generalize h.span.s.line = sl at *
+    generalize h.span.e.line = el at *
+    generalize h.span.s.col = sc at *
+    generalize h.span.e.col = ec at *
+    by_cases hc : sc = 0 <;> simp only [hc, if_true, if_false] at hS hst ⊢ <;> grind
+
+theorem core_base {h : Highlight} (hm : h.span.s.line ≠ h.span.e.line) (k : Nat) (r : RowId)
+    (hS : ¬ rlt (startRow h k) r ∨ r.line ≠ h.span.s.line)
+    (hE : ¬ rlt (endRow h k) r ∨ r.line ≠ h.span.e.line) :
+    normSt h r.line .waiting = expSt h k r := by
+  simp only [expSt, rlt_start, rlt_end, normSt] at hS hE ⊢
+  generalize r.line = L at *
+  generalize rpos r = P at *
+  generalize h.span.s.line = sl at *
+  generalize h.span.e.line = el at *
+  generalize h.span.s.col = sc at *
+  by_cases hc : sc = 0 <;> simp only [hc, if_true, if_false] at hS ⊢
+  all_goals grind
+
+/-! #### sorted lists of row ids -/
+
+theorem rlt_irrefl (a : RowId) : ¬ rlt a a := by simp only [rlt]; omega
+
+theorem rlt_asymm {a b : RowId} : rlt a b → ¬ rlt b a := by simp only [rlt]; omega
+
+theorem rlt_trans {a b c : RowId} : rlt a b → rlt b c → rlt a c := by simp only [rlt]; omega
+
+theorem sorted_lt {ids : List RowId} (hp : ids.Pairwise rlt) {i j : Nat} {r r' : RowId}
+    (hi : ids[i]? = some r) (hj : ids[j]? = some r') (hij : i < j) : rlt r r' := by
+  obtain ⟨h1, rfl⟩ := List.getElem?_eq_some_iff.mp hi
+  obtain ⟨h2, rfl⟩ := List.getElem?_eq_some_iff.mp hj
+  exact List.pairwise_iff_getElem.mp hp i j h1 h2 hij
+
+/-- nothing lies strictly between two consecutive rows -/
+theorem sorted_between {ids : List RowId} (hp : ids.Pairwise rlt) {i : Nat} {r r' x : RowId}
+    (hi : ids[i]? = some r) (hj : ids[i + 1]? = some r') (hx : x ∈ ids) : ¬ (rlt r x ∧ rlt x r') := by
+  obtain ⟨j, hj', rfl⟩ := List.mem_iff_getElem.mp hx
+  have hxj : ids[j]? = some ids[j] := List.getElem?_eq_getElem hj'
+  intro ⟨h1, h2⟩
+  by_cases hc : j ≤ i
+  · by_cases he : j = i
+    · subst he; rw [hxj] at hi; injection hi with hi; rw [hi] at h1; exact rlt_irrefl _ h1
+    · exact rlt_asymm h1 (sorted_lt hp hxj hi (by omega))
+  · by_cases he : j = i + 1
+    · subst he; rw [hxj] at hj; injection hj with hj; rw [hj] at h2; exact rlt_irrefl _ h2
+    · exact rlt_asymm h2 (sorted_lt hp hj hxj (by omega))
+
+theorem sorted_first {ids : List RowId} (hp : ids.Pairwise rlt) {r x : RowId}
+    (hi : ids[0]? = some r) (hx : x ∈ ids) : ¬ rlt x r := by
+  obtain ⟨j, hj', rfl⟩ := List.mem_iff_getElem.mp hx
+  have hxj : ids[j]? = some ids[j] := List.getElem?_eq_getElem hj'
+  intro h1
+  by_cases he : j = 0
+  · subst he; rw [hxj] at hi; injection hi with hi; rw [hi] at h1; exact rlt_irrefl _ h1
+  · exact rlt_asymm h1 (sorted_lt hp hi hxj (by omega))
+
+/-- position of `X` in a sorted list, against the position of row `i` -/
+theorem findIdx_sorted {ids : List RowId} (hp : ids.Pairwise rlt) (X : RowId) {i : Nat} {r : RowId}
     (hr : ids[i]? = some r) :
-    endSeen ids h k (i + 1) = (endSeen ids h k i || r == RowId.mark h.span.e.line k) := by
-  simp [endSeen, List.take_add_one, hr, List.any_append]
+    match ids.findIdx? (· == X) with
+    | some s => (s < i ↔ rlt X r) ∧ (s = i ↔ r = X)
+    | none => X ∉ ids := by
+  split
+  · rename_i s hs
+    obtain ⟨hlen, hX, _⟩ := List.findIdx?_eq_some_iff_getElem.mp hs
+    have hX' : ids[s] = X := by simpa using hX
+    have hxs : ids[s]? = some X := by rw [← hX']; exact List.getElem?_eq_getElem hlen
+    refine ⟨⟨fun h => sorted_lt hp hxs hr h, fun h => ?_⟩, ⟨fun h => ?_, fun h => ?_⟩⟩
+    · by_cases hc : s < i
+      · exact hc
+      · by_cases he : s = i
+        · subst he; rw [hxs] at hr; injection hr with hr; rw [hr] at h; exact absurd h (rlt_irrefl _)
+        · exact absurd (sorted_lt hp hr hxs (by omega)) (rlt_asymm h)
+    · subst h; rw [hxs] at hr; injection hr with hr; exact hr.symm
+    · subst h
+      by_cases hc : s < i
+      · exact absurd (sorted_lt hp hxs hr hc) (rlt_irrefl _)
+      · by_cases he : s = i
+        · exact he
+        · exact absurd (sorted_lt hp hr hxs (by omega)) (rlt_irrefl _)
+  · rename_i hn
+    intro hmem
+    have := List.findIdx?_eq_none_iff.mp hn X hmem
+    simp at this
+
+/-- what the riser proof needs of the list of row ids, for highlight `(h, k)` -/
+structure IdsOK (ids : List RowId) (h : Highlight) (k : Nat) : Prop where
+  sorted : ids.Pairwise rlt
+  hasS : startRow h k ∈ ids ∨ ∀ x ∈ ids, x.line ≠ h.span.s.line
+  hasE : endRow h k ∈ ids ∨ ∀ x ∈ ids, x.line ≠ h.span.e.line
+
+/-- the riser state of highlight `(h, k)` before row `i`: the state machine run over the rows -/
+def stateAt (ids : List RowId) (h : Highlight) (k : Nat) : Nat → Riser
+  | 0 => if h.isMultiline then .waiting else .unused
+  | i + 1 =>
+    match ids[i]? with
+    | some r => (writeRiser plainPaint false h r.line (stateAt ids h k i) (rowAct r == some k)).2
+    | none => stateAt ids h k i
+
+theorem norm_stateAt {ids : List RowId} {h : Highlight} {k : Nat} (hok : HlOK h)
+    (hm : h.isMultiline = true) (ok : IdsOK ids h k) : ∀ (i : Nat) (r : RowId), ids[i]? = some r →
+    normSt h r.line (stateAt ids h k i) = expSt h k r := by
+  have hne : h.span.s.line ≠ h.span.e.line := by simpa [Highlight.isMultiline] using hm
+  intro i
+  induction i with
+  | zero =>
+    intro r hr
+    have hmem : r ∈ ids := List.mem_of_getElem? hr
+    simp only [stateAt, hm, if_true]
+    apply core_base hne
+    · rcases ok.hasS with h1 | h1
+      · exact Or.inl (sorted_first ok.sorted hr h1)
+      · exact Or.inr (h1 r hmem)
+    · rcases ok.hasE with h1 | h1
+      · exact Or.inl (sorted_first ok.sorted hr h1)
+      · exact Or.inr (h1 r hmem)
+  | succ i ih =>
+    intro r' hr'
+    have hlt : i < ids.length := by
+      have := (List.getElem?_eq_some_iff.mp hr').1; omega
+    have hr : ids[i]? = some ids[i] := List.getElem?_eq_getElem hlt
+    generalize ids[i] = r at hr
+    have hmem : r ∈ ids := List.mem_of_getElem? hr
+    have hmem' : r' ∈ ids := List.mem_of_getElem? hr'
+    simp only [stateAt, hr, writeRiser_eq, ih r hr]
+    apply core_step hok hne k r r' (sorted_lt ok.sorted hr hr' (by omega))
+    · rcases ok.hasS with h1 | h1
+      · exact Or.inl (sorted_between ok.sorted hr hr' h1)
+      · exact Or.inr ⟨h1 r hmem, h1 r' hmem'⟩
+    · rcases ok.hasE with h1 | h1
+      · exact Or.inl (sorted_between ok.sorted hr hr' h1)
+      · exact Or.inr ⟨h1 r hmem, h1 r' hmem'⟩
+
+/-- the specification's riser character at row `i`, in terms of the printing order -/
+theorem riserChar_key {ids : List RowId} {h : Highlight} {k : Nat} (ok : IdsOK ids h k)
+    {i : Nat} {r : RowId} (hr : ids[i]? = some r) : riserChar ids h k i = charK h k r := by
+  have hmem : r ∈ ids := List.mem_of_getElem? hr
+  have h1 := findIdx_sorted ok.sorted (startRow h k) hr
+  have h2 := findIdx_sorted ok.sorted (endRow h k) hr
+  have hS := ok.hasS
+  have hE := ok.hasE
+  have e1 : (if h.span.s.col == 0 then RowId.src h.span.s.line else RowId.mark h.span.s.line k) =
+      startRow h k := rfl
+  have e2 : RowId.mark h.span.e.line k = endRow h k := rfl
+  simp only [riserChar, hr, Option.map_some, Option.getD_some, e1, e2, charK]
+  generalize List.findIdx? (fun x => x == startRow h k) ids = si at h1 ⊢
+  generalize List.findIdx? (fun x => x == endRow h k) ids = ei at h2 ⊢
+  have FSs : ∀ s, ((s < i ↔ rlt (startRow h k) r) ∧ (s = i ↔ r = startRow h k)) →
+      (some s == some i) = decide (r = startRow h k) ∧
+        decide (s < i) = decide (rlt (startRow h k) r) := by
+    intro s h1
+    refine ⟨?_, by simp only [h1.1]⟩
+    by_cases hsi : s = i
+    · have := h1.2.mp hsi; simp [hsi, this]
+    · have := mt h1.2.mpr hsi; simp [hsi, this]
+  have FSn : startRow h k ∉ ids → ((none : Option Nat) == some i) = decide (r = startRow h k) ∧
+        decide (h.span.s.line < r.line) = decide (rlt (startRow h k) r) := by
+    intro h1
+    have hl : r.line ≠ h.span.s.line := by
+      rcases hS with hS | hS
+      · exact absurd hS h1
+      · exact hS r hmem
+    have hne : r ≠ startRow h k := fun he => h1 (he ▸ hmem)
+    refine ⟨by simp [hne], ?_⟩
+    simp only [rlt_start]
+    congr 1
+    apply propext
+    constructor
+    · exact fun hh => Or.inl hh
+    · rintro (hh | ⟨hh, _⟩)
+      · exact hh
+      · exact absurd hh.symm hl
+  have FEs : ∀ e, (e < i ↔ rlt (endRow h k) r) → decide (i ≤ e) = decide (¬ rlt (endRow h k) r) := by
+    intro e h2
+    simp only [← h2]
+    congr 1; apply propext; omega
+  have FEn : endRow h k ∉ ids → decide (r.line < h.span.e.line) = decide (¬ rlt (endRow h k) r) := by
+    intro h2
+    have hl : r.line ≠ h.span.e.line := by
+      rcases hE with hE | hE
+      · exact absurd hE h2
+      · exact hE r hmem
+    simp only [rlt_end]
+    congr 1; apply propext; omega
+  have fin : ∀ (a b c : Bool), a = decide (r = startRow h k) → b = decide (rlt (startRow h k) r) →
+      c = decide (¬ rlt (endRow h k) r) →
+      (if a = true then if (h.span.s.col == 0) = true then "/" else " "
+        else if (b && c) = true then "|" else " ") =
+      if r = startRow h k then if (h.span.s.col == 0) = true then "/" else " "
+      else if rlt (startRow h k) r ∧ ¬rlt (endRow h k) r then "|" else " " := by
+    intro a b c ha hb hc
+    subst ha hb hc
+    by_cases c1 : r = startRow h k <;> by_cases c2 : rlt (startRow h k) r <;>
+      by_cases c3 : rlt (endRow h k) r <;> simp [c1, c2, c3]
+  cases si with
+  | some s =>
+    cases ei with
+    | some e => exact fin _ _ _ (FSs s h1).1 (FSs s h1).2 (FEs e h2.1)
+    | none => exact fin _ _ _ (FSs s h1).1 (FSs s h1).2 (FEn h2)
+  | none =>
+    cases ei with
+    | some e => exact fin _ _ _ (FSn h1).1 (FSn h1).2 (FEs e h2.1)
+    | none => exact fin _ _ _ (FSn h1).1 (FSn h1).2 (FEn h2)
+
+theorem stateAt_unused (ids : List RowId) {h : Highlight} (k : Nat) (hm : h.isMultiline = false) :
+    ∀ i, stateAt ids h k i = .unused := by
+  intro i
+  induction i with
+  | zero => simp [stateAt, hm]
+  | succ i ih =>
+    simp only [stateAt, ih]
+    split <;> simp [writeRiser]
 
 /-- one step of the riser state machine = the specification's riser character at that row -/
-theorem riser_step (first last : Nat) (tail : List RowId) (h : Highlight) (k i : Nat) (r : RowId)
-    (hok : HlOK first last h) (hr : (RowId.src first :: tail)[i]? = some r) :
-    writeRiser plainPaint false h (rowLine r) (stateAt (RowId.src first :: tail) h k i)
-        (rowAct r == some k) =
-      (if h.isMultiline then riserChar (RowId.src first :: tail) h k i else "",
-       stateAt (RowId.src first :: tail) h k (i + 1)) := by
+theorem riser_step {ids : List RowId} {h : Highlight} {k : Nat} (hok : HlOK h)
+    (ok : h.isMultiline = true → IdsOK ids h k) {i : Nat} {r : RowId} (hr : ids[i]? = some r) :
+    writeRiser plainPaint false h r.line (stateAt ids h k i) (rowAct r == some k) =
+      (if h.isMultiline then riserChar ids h k i else "", stateAt ids h k (i + 1)) := by
   cases hm : h.isMultiline with
-  | false => simp [stateAt, hm, writeRiser]
+  | false => simp [stateAt_unused ids k hm, writeRiser]
   | true =>
-    obtain ⟨h1, h2, h3, h4, h5, _⟩ := hasMsg_multi hok hm (rowLine r)
-    subst h2
-    have hsucc := endSeen_succ _ h k i r hr
-    rw [if_pos rfl, riserChar_closed tail h k i h1]
-    cases i with
-    | zero =>
-      simp only [List.getElem?_cons_zero, Option.some.injEq] at hr
-      subst hr
-      have hne : (h.span.e.line == h.span.s.line) = false := by
-        simp; exact fun hh => h4 hh.symm
-      have h5' : h.hasMessageForLine h.span.s.line = false := by
-        simpa [rowLine, hne] using h5
-      simp [stateAt, hm, writeRiser, rowAct, rowLine, h5', h1, endSeen]
-    | succ j =>
-      have hcol : (h.span.e.col == 0) = false := by simp [h3]
-      cases hseen : endSeen (RowId.src h.span.s.line :: tail) h k (j + 1) with
-      | true =>
-        simp [stateAt, hm, writeRiser, hseen, hsucc]
-      | false =>
-        have hiff : (rowAct r == some k && h.span.e.line == rowLine r) =
-            (r == RowId.mark h.span.e.line k) := by
-          cases r with
-          | src l => simp [rowAct]
-          | mark l k' =>
-            rw [Bool.eq_iff_iff]
-            simp only [rowAct, rowLine, Bool.and_eq_true, beq_iff_eq,
-              RowId.mark.injEq, Option.some.injEq]
-            omega
-        simp only [stateAt, hm, Bool.not_true, Bool.false_eq_true, if_false, Nat.add_one_ne_zero,
-          hseen, writeRiser, h5, hcol, Bool.and_false, Bool.false_and, hsucc, Bool.false_or, hiff]
-        cases r == RowId.mark h.span.e.line k <;> simp
+    have hne : h.span.s.line ≠ h.span.e.line := by simpa [Highlight.isMultiline] using hm
+    have h2 : stateAt ids h k (i + 1) =
+        (writeRiser plainPaint false h r.line (stateAt ids h k i) (rowAct r == some k)).2 := by
+      simp only [stateAt, hr]
+    rw [h2, if_pos rfl, riserChar_key (ok hm) hr, ← core_out hok hne k r,
+      ← norm_stateAt hok hm (ok hm) i r hr, ← writeRiser_eq]
 
 theorem range_map_getElem? {α β} (l : List α) (F : Nat → Option α → β) :
     (List.range l.length).map (fun k => F k l[k]?) = l.mapIdx (fun k a => F k (some a)) := by
@@ -597,14 +818,14 @@ theorem risers_eq (ids : List RowId) (hls : List Highlight) (i : Nat) :
 def statesAt (ids : List RowId) (hls : List Highlight) (i : Nat) : List Riser :=
   hls.mapIdx fun k h => stateAt ids h k i
 
-theorem writeRisers_step_aux (first last : Nat) (tail : List RowId) (i : Nat) (r : RowId)
-    (hr : (RowId.src first :: tail)[i]? = some r) : ∀ (hs : List Highlight) (k0 : Nat),
-    (∀ h ∈ hs, HlOK first last h) →
-    writeRisers plainPaint false (rowLine r) (rowAct r) k0 hs
-        (hs.mapIdx fun t h => stateAt (RowId.src first :: tail) h (k0 + t) i) =
+theorem writeRisers_step_aux (ids : List RowId) (i : Nat) (r : RowId) (hr : ids[i]? = some r) :
+    ∀ (hs : List Highlight) (k0 : Nat),
+    (∀ t h, hs[t]? = some h → HlOK h ∧ (h.isMultiline = true → IdsOK ids h (k0 + t))) →
+    writeRisers plainPaint false r.line (rowAct r) k0 hs
+        (hs.mapIdx fun t h => stateAt ids h (k0 + t) i) =
       (String.join (hs.mapIdx fun t h =>
-          if h.isMultiline then riserChar (RowId.src first :: tail) h (k0 + t) i else ""),
-       hs.mapIdx fun t h => stateAt (RowId.src first :: tail) h (k0 + t) (i + 1)) := by
+          if h.isMultiline then riserChar ids h (k0 + t) i else ""),
+       hs.mapIdx fun t h => stateAt ids h (k0 + t) (i + 1)) := by
   intro hs
   induction hs with
   | nil => intro k0 _; simp [writeRisers]
@@ -613,48 +834,64 @@ theorem writeRisers_step_aux (first last : Nat) (tail : List RowId) (i : Nat) (r
     have e : ∀ {β} (F : Nat → Highlight → β),
         (fun t h => F (k0 + (t + 1)) h) = (fun t h => F (k0 + 1 + t) h) := by
       intro β F; funext t h; congr 1; omega
-    have hih := ih (k0 + 1) (fun h' hh => hok h' (by simp [hh]))
+    have hih := ih (k0 + 1) (fun t h' hh => by
+      have := hok (t + 1) h' (by simpa using hh)
+      have e' : k0 + 1 + t = k0 + (t + 1) := by omega
+      rw [e']; exact this)
+    obtain ⟨h0, h0'⟩ := hok 0 h (by simp)
+    rw [Nat.add_zero] at h0'
     simp only [List.mapIdx_cons, writeRisers, Nat.add_zero,
-      riser_step first last tail h k0 i r (hok h (by simp)) hr, String.join_cons]
-    rw [e (fun k h => stateAt (RowId.src first :: tail) h k i),
-      e (fun k h => stateAt (RowId.src first :: tail) h k (i + 1)),
-      e (fun k h => if h.isMultiline then riserChar (RowId.src first :: tail) h k i else ""), hih]
+      riser_step h0 h0' hr, String.join_cons]
+    rw [e (fun k h => stateAt ids h k i),
+      e (fun k h => stateAt ids h k (i + 1)),
+      e (fun k h => if h.isMultiline then riserChar ids h k i else ""), hih]
 
-theorem writeRisers_step (first last : Nat) (tail : List RowId) (hls : List Highlight)
-    (hok : ∀ h ∈ hls, HlOK first last h) (i : Nat) (r : RowId)
-    (hr : (RowId.src first :: tail)[i]? = some r) :
-    writeRisers plainPaint false (rowLine r) (rowAct r) 0 hls
-        (statesAt (RowId.src first :: tail) hls i) =
-      (Spec.risers (RowId.src first :: tail) hls i, statesAt (RowId.src first :: tail) hls (i + 1)) := by
-  have := writeRisers_step_aux first last tail i r hr hls 0 hok
+theorem writeRisers_step (ids : List RowId) (hls : List Highlight)
+    (hok : ∀ k h, hls[k]? = some h → HlOK h ∧ (h.isMultiline = true → IdsOK ids h k))
+    (i : Nat) (r : RowId) (hr : ids[i]? = some r) :
+    writeRisers plainPaint false r.line (rowAct r) 0 hls (statesAt ids hls i) =
+      (Spec.risers ids hls i, statesAt ids hls (i + 1)) := by
+  have := writeRisers_step_aux ids i r hr hls 0 (fun t h hh => by
+    rw [Nat.zero_add]; exact hok t h hh)
   simpa only [Nat.zero_add, statesAt, risers_eq] using this
 
 theorem rep_eq (c : String) (n : Nat) : String.join (List.replicate n c) = rep c n := rfl
 
 /-- the mark row text of the model is the specification's mark text -/
-theorem writeMessage_markText {first last : Nat} {h : Highlight} (hok : HlOK first last h)
+theorem writeMessage_markText {h : Highlight} (hok : HlOK h)
     (line : Nat) (multi : Bool) (hmsg : h.hasMessageForLine line = true) :
     writeMessage plainPaint false h line multi = some (markText h line multi ++ "\n") := by
-  obtain ⟨_, hs, msg, he⟩ := id hok
+  rw [hasMsg_eq hok] at hmsg
+  obtain ⟨hs, msg, he⟩ := hok
   cases hm : h.isMultiline with
   | false =>
-    obtain ⟨h1, _⟩ := hasMsg_single hok hm line
-    rw [h1] at hmsg
     have hse : h.span.e.line = h.span.s.line := by
       simp only [Highlight.isMultiline, bne_eq_false_iff_eq] at hm; exact hm.symm
-    simp only [writeMessage, markText, hm, hs, he, hse, hmsg, Bool.and_self, if_true,
+    have hsl : (h.span.s.line == line) = true := by
+      rw [hse] at hmsg
+      cases hc : h.span.s.line == line <;> simp [hc] at hmsg ⊢
+    simp only [writeMessage, markText, hm, hs, he, hse, hsl, Bool.and_self, if_true,
       Bool.false_eq_true, if_false, rep_eq, Bool.not_false]
     split <;> simp [String.append_assoc]
   | true =>
-    obtain ⟨h1, h2, h3, h4, h5, _⟩ := hasMsg_multi hok hm line
-    rw [h5] at hmsg
-    have hsl : (h.span.s.line == line) = false := by
-      simp only [beq_iff_eq] at hmsg
-      simp; omega
-    have hpos : h.span.e.col > 0 := by omega
-    simp only [writeMessage, markText, hm, hs, he, hsl, hmsg, Bool.false_and, Bool.false_eq_true,
-      if_false, if_true, rep_eq, Bool.not_true, hpos]
-    simp [String.append_assoc]
+    have hne : h.span.s.line ≠ h.span.e.line := by simpa [Highlight.isMultiline] using hm
+    cases hsl : h.span.s.line == line with
+    | true =>
+      have hel : (h.span.e.line == line) = false := by
+        simp only [beq_iff_eq] at hsl
+        simp; omega
+      have hcol : h.span.s.col ≠ 0 := by simpa [hsl, hel] using hmsg
+      have hpos : h.span.s.col > 0 := by omega
+      simp only [writeMessage, markText, hm, hs, he, hsl, hel, Bool.true_and, Bool.and_false,
+        Bool.false_eq_true, if_false, if_true, rep_eq, Bool.not_true, hpos]
+    | false =>
+      have hel : (h.span.e.line == line) = true := by simpa [hsl] using hmsg
+      simp only [writeMessage, markText, hm, hs, he, hsl, hel, Bool.false_and,
+        Bool.false_eq_true, if_false, if_true, rep_eq, Bool.not_true]
+      by_cases hpos : h.span.e.col > 0
+      · simp [hpos, String.append_assoc]
+      · have h0 : h.span.e.col = 0 := by omega
+        simp [h0, rep, String.append_assoc]
 
 /-- mark rows of line `line` for the highlights `rest`, numbered from `k` -/
 def marksOf (line : Nat) : Nat → List Highlight → List RowId
@@ -679,14 +916,14 @@ theorem shift_fun {α β} (j : Nat) (F : Nat → α → β) :
 
 section Layout
 variable (w : Nat) (hls : List Highlight) (text : Nat → String) (ρ : Nat → String)
-  (σ : Nat → List Riser) (ids : List RowId) (first last : Nat)
+  (σ : Nat → List Riser) (ids : List RowId)
 
 /-- the mark rows below one source line are the specification's rows at those indices -/
 theorem messageRows_spec
     (STEP : ∀ i r, ids[i]? = some r →
-      writeRisers plainPaint false (rowLine r) (rowAct r) 0 hls (σ i) = (ρ i, σ (i + 1)))
+      writeRisers plainPaint false r.line (rowAct r) 0 hls (σ i) = (ρ i, σ (i + 1)))
     (line : Nat) (multi : Bool) : ∀ (rest preH : List Highlight) (j : Nat),
-    hls = preH ++ rest → (∀ h ∈ rest, HlOK first last h) →
+    hls = preH ++ rest → (∀ h ∈ rest, HlOK h) →
     (∀ t r, (marksOf line preH.length rest)[t]? = some r → ids[j + t]? = some r) →
     messageRows plainPaint false w line hls multi preH.length rest (σ j) =
       .ok (String.join ((marksOf line preH.length rest).mapIdx fun t r =>
@@ -699,14 +936,14 @@ theorem messageRows_spec
     intro preH j hh hok hpos
     have hh' : hls = (preH ++ [mh]) ++ rest := by rw [hh]; simp
     have hlen : (preH ++ [mh]).length = preH.length + 1 := by simp
-    have hok' : ∀ h ∈ rest, HlOK first last h := fun h hm => hok h (by simp [hm])
+    have hok' : ∀ h ∈ rest, HlOK h := fun h hm => hok h (by simp [hm])
     by_cases hmsg : mh.hasMessageForLine line = true
     · have hm0 : (marksOf line preH.length (mh :: rest)) =
           RowId.mark line preH.length :: marksOf line (preH.length + 1) rest := by
         simp [marksOf, hmsg]
       rw [hm0] at hpos ⊢
       have hstep := STEP j (RowId.mark line preH.length) (by simpa using hpos 0 _ rfl)
-      simp only [rowLine, rowAct] at hstep
+      simp only [RowId.line, rowAct] at hstep
       have hih := ih (preH ++ [mh]) (j + 1) hh' hok' (by
         intro t r ht
         rw [hlen] at ht
@@ -736,8 +973,8 @@ theorem messageRows_spec
 /-- the loop over the source lines produces the specification's rows, in order -/
 theorem lineRows_spec (src : Source)
     (STEP : ∀ i r, ids[i]? = some r →
-      writeRisers plainPaint false (rowLine r) (rowAct r) 0 hls (σ i) = (ρ i, σ (i + 1)))
-    (hok : ∀ h ∈ hls, HlOK first last h) : ∀ (pieces : List Span) (j : Nat),
+      writeRisers plainPaint false r.line (rowAct r) 0 hls (σ i) = (ρ i, σ (i + 1)))
+    (hok : ∀ h ∈ hls, HlOK h) : ∀ (pieces : List Span) (j : Nat),
     (∀ sp ∈ pieces, ∃ piece, src.clipped sp = .ok piece ∧ textString piece.text = text sp.s.line) →
     (∀ t r, (mIds hls (pieces.map (·.s.line)))[t]? = some r → ids[j + t]? = some r) →
     lineRows plainPaint false src w hls pieces (σ j) =
@@ -754,8 +991,8 @@ theorem lineRows_spec (src : Source)
       simp [mIds]
     rw [hids] at hpos ⊢
     have hstep := STEP j (RowId.src sp.s.line) (by simpa using hpos 0 _ rfl)
-    simp only [rowLine, rowAct] at hstep
-    have hmsgs := messageRows_spec w hls text ρ σ ids first last STEP sp.s.line
+    simp only [RowId.line, rowAct] at hstep
+    have hmsgs := messageRows_spec w hls text ρ σ ids STEP sp.s.line
       (hls.any (·.isMultiline)) hls [] (j + 1) rfl hok (by
         intro t r ht
         simp only [List.length_nil] at ht
@@ -796,14 +1033,19 @@ end Layout
 
 /-! ### 5b. the specification's row ids and rows, structurally -/
 
-theorem hasMark_eq {first last : Nat} {h : Highlight} (hok : HlOK first last h) (l : Nat) :
+theorem hasMark_eq {h : Highlight} (hok : HlOK h) (l : Nat) :
     hasMark h l = h.hasMessageForLine l := by
+  rw [hasMsg_eq hok]
   cases hm : h.isMultiline with
-  | false => obtain ⟨h1, h2⟩ := hasMsg_single hok hm l; rw [h1, h2]
-  | true => obtain ⟨_, _, _, _, h1, h2⟩ := hasMsg_multi hok hm l; rw [h1, h2]
+  | false =>
+    have hse : h.span.e.line = h.span.s.line := by
+      simp only [Highlight.isMultiline, bne_eq_false_iff_eq] at hm; exact hm.symm
+    simp only [hasMark, hm, Bool.false_eq_true, if_false, hse]
+    cases h.span.s.line == l <;> simp
+  | true => simp [hasMark, hm]
 
-theorem marks_eq_aux (first last l : Nat) (hls : List Highlight) : ∀ (rest preH : List Highlight),
-    hls = preH ++ rest → (∀ h ∈ rest, HlOK first last h) →
+theorem marks_eq_aux (l : Nat) (hls : List Highlight) : ∀ (rest preH : List Highlight),
+    hls = preH ++ rest → (∀ h ∈ rest, HlOK h) →
     ((List.range' preH.length rest.length).filter
         (fun k => (hls[k]?.map (hasMark · l)).getD false)).map (RowId.mark l) =
       marksOf l preH.length rest := by
@@ -820,14 +1062,133 @@ theorem marks_eq_aux (first last l : Nat) (hls : List Highlight) : ∀ (rest pre
       Option.getD_some, hasMark_eq (hok mh (by simp)) l, marksOf]
     split <;> simp [hih]
 
-theorem rowIds_eq (first last : Nat) (hls : List Highlight) (hok : ∀ h ∈ hls, HlOK first last h)
+theorem rowIds_eq (hls : List Highlight) (hok : ∀ h ∈ hls, HlOK h)
     (lines : List Nat) : rowIds lines hls = mIds hls lines := by
   unfold rowIds mIds
   congr 1
   funext l
-  have := marks_eq_aux first last l hls hls [] rfl hok
+  have := marks_eq_aux l hls hls [] rfl hok
   simp only [List.length_nil, ← List.range_eq_range'] at this
   rw [this]
+
+/-! ### 5b'. the row ids are printed in order; start and end rows of displayed lines exist -/
+
+theorem marksOf_mem (line : Nat) : ∀ (rest : List Highlight) (k0 : Nat) (x : RowId),
+    x ∈ marksOf line k0 rest → ∃ k, x = RowId.mark line k ∧ k0 ≤ k := by
+  intro rest
+  induction rest with
+  | nil => intro k0 x hx; simp [marksOf] at hx
+  | cons mh rest ih =>
+    intro k0 x hx
+    unfold marksOf at hx
+    split at hx
+    · rcases List.mem_cons.mp hx with rfl | hx
+      · exact ⟨k0, rfl, Nat.le_refl _⟩
+      · obtain ⟨k, h1, h2⟩ := ih (k0 + 1) x hx
+        exact ⟨k, h1, by omega⟩
+    · obtain ⟨k, h1, h2⟩ := ih (k0 + 1) x hx
+      exact ⟨k, h1, by omega⟩
+
+theorem mem_marksOf (line : Nat) : ∀ (rest : List Highlight) (k0 t : Nat) (h : Highlight),
+    rest[t]? = some h → h.hasMessageForLine line = true →
+    RowId.mark line (k0 + t) ∈ marksOf line k0 rest := by
+  intro rest
+  induction rest with
+  | nil => intro k0 t h ht; simp at ht
+  | cons mh rest ih =>
+    intro k0 t h ht hmsg
+    cases t with
+    | zero =>
+      simp only [List.getElem?_cons_zero, Option.some.injEq] at ht
+      subst ht
+      simp [marksOf, hmsg]
+    | succ t =>
+      simp only [List.getElem?_cons_succ] at ht
+      have := ih (k0 + 1) t h ht hmsg
+      have e : k0 + (t + 1) = k0 + 1 + t := by omega
+      rw [e]
+      unfold marksOf
+      split
+      · exact List.mem_cons_of_mem _ this
+      · exact this
+
+theorem marksOf_sorted (line : Nat) : ∀ (rest : List Highlight) (k0 : Nat),
+    (marksOf line k0 rest).Pairwise rlt := by
+  intro rest
+  induction rest with
+  | nil => intro k0; simp [marksOf]
+  | cons mh rest ih =>
+    intro k0
+    unfold marksOf
+    split
+    · refine List.pairwise_cons.mpr ⟨?_, ih (k0 + 1)⟩
+      intro x hx
+      obtain ⟨k, rfl, hk⟩ := marksOf_mem line rest (k0 + 1) x hx
+      exact Or.inr ⟨rfl, by simp only [rpos]; omega⟩
+    · exact ih (k0 + 1)
+
+theorem mIds_line {hls : List Highlight} {lines : List Nat} {x : RowId}
+    (hx : x ∈ mIds hls lines) : x.line ∈ lines := by
+  obtain ⟨l, hl, hx⟩ := List.mem_flatMap.mp hx
+  rcases List.mem_cons.mp hx with rfl | hx
+  · exact hl
+  · obtain ⟨k, rfl, _⟩ := marksOf_mem l hls 0 x hx
+    exact hl
+
+theorem mIds_sorted (hls : List Highlight) {lines : List Nat} (hs : lines.Pairwise (· < ·)) :
+    (mIds hls lines).Pairwise rlt := by
+  unfold mIds
+  rw [List.pairwise_flatMap]
+  constructor
+  · intro l _
+    refine List.pairwise_cons.mpr ⟨?_, marksOf_sorted l hls 0⟩
+    intro x hx
+    obtain ⟨k, rfl, _⟩ := marksOf_mem l hls 0 x hx
+    exact Or.inr ⟨rfl, by simp only [rpos]; omega⟩
+  · refine hs.imp ?_
+    intro l1 l2 hlt x hx y hy
+    have h1 : x.line = l1 := by
+      rcases List.mem_cons.mp hx with rfl | hx
+      · rfl
+      · obtain ⟨k, rfl, _⟩ := marksOf_mem l1 hls 0 x hx; rfl
+    have h2 : y.line = l2 := by
+      rcases List.mem_cons.mp hy with rfl | hy
+      · rfl
+      · obtain ⟨k, rfl, _⟩ := marksOf_mem l2 hls 0 y hy; rfl
+    simp only [rlt, h1, h2]; omega
+
+/-- the list of row ids the model prints is what the riser proof needs -/
+theorem mIds_ok {hls : List Highlight} {lines : List Nat} (hs : lines.Pairwise (· < ·))
+    {h : Highlight} {k : Nat} (hk : hls[k]? = some h) (hok : HlOK h)
+    (hm : h.isMultiline = true) : IdsOK (mIds hls lines) h k := by
+  have hne : h.span.s.line ≠ h.span.e.line := by simpa [Highlight.isMultiline] using hm
+  refine ⟨mIds_sorted hls hs, ?_, ?_⟩
+  · by_cases hl : h.span.s.line ∈ lines
+    · left
+      refine List.mem_flatMap.mpr ⟨_, hl, ?_⟩
+      unfold startRow
+      split
+      · exact List.mem_cons_self
+      · rename_i hc
+        have hmsg : h.hasMessageForLine h.span.s.line = true := by
+          rw [hasMsg_eq hok]; simpa using Or.inl hc
+        have := mem_marksOf h.span.s.line hls 0 k h hk hmsg
+        rw [Nat.zero_add] at this
+        exact List.mem_cons_of_mem _ this
+    · right
+      intro x hx he
+      exact hl (he ▸ mIds_line hx)
+  · by_cases hl : h.span.e.line ∈ lines
+    · left
+      refine List.mem_flatMap.mpr ⟨_, hl, ?_⟩
+      have hmsg : h.hasMessageForLine h.span.e.line = true := by
+        rw [hasMsg_eq hok]; simp
+      have := mem_marksOf h.span.e.line hls 0 k h hk hmsg
+      rw [Nat.zero_add] at this
+      exact List.mem_cons_of_mem _ this
+    · right
+      intro x hx he
+      exact hl (he ▸ mIds_line hx)
 
 theorem statesAt_zero (ids : List RowId) (hls : List Highlight) :
     statesAt ids hls 0 = hls.map fun h => if h.isMultiline then Riser.waiting else Riser.unused := by
@@ -884,36 +1245,33 @@ theorem map_mapIdx' {α β γ} (f : β → γ) (g : Nat → α → β) (l : List
   simp only [List.getElem?_map, List.getElem?_mapIdx]
   cases l[i]? <;> rfl
 
-/-- Layout, abstractly in the pieces: whenever `SplitLines` yields `pieces` (at least one, the
-first on line `first`), each piece clips to the text that `lines` records for its line number,
-and every highlight is well-behaved with one end message, the rendered display is the
-specification's rows, each followed by a newline. -/
+/-- Layout, abstractly in the pieces: whenever `SplitLines` yields `pieces` with strictly
+increasing line numbers, each piece clips to the text that `lines` records for its line number,
+and every highlight carries exactly an end message, the rendered display is the specification's
+rows, each followed by a newline — for highlights of every shape. -/
 theorem writeSpanDisplay_layout (src : Source) (sd : SpanDisplay) (pieces : List (Nat × Span))
-    (n first last : Nat)
+    (n : Nat)
     (hcollect : (SplitLines.ofSpan sd.span src).collect (sd.span.e.line - sd.span.s.line + 2) =
       .ok (pieces, n))
     (hnotes : sd.notes = [])
     (hlen : (sd.highlights.filter (·.isMultiline)).length < 256)
-    (hok : ∀ h ∈ sd.highlights, HlOK first last h)
+    (hok : ∀ h ∈ sd.highlights, HlOK h)
     (lines : List (Nat × String))
     (hlines : lines.map (·.1) = pieces.map (·.2.s.line))
-    (hfirst : ∃ rest, pieces.map (·.2.s.line) = first :: rest)
+    (hsorted : (pieces.map (·.2.s.line)).Pairwise (· < ·))
     (hclip : ∀ p ∈ pieces, ∃ piece, src.clipped p.2 = .ok piece ∧
       textString piece.text = ((lines.find? (·.1 == p.2.s.line)).map (·.2)).getD "") :
     writeSpanDisplay plainPaint false src sd =
       .ok ("\n".intercalate (displayRows sd.name sd.span sd.gutter lines sd.highlights) ++ "\n") := by
-  obtain ⟨rest, hrest⟩ := hfirst
-  have hids : mIds sd.highlights (pieces.map (·.2.s.line)) =
-      RowId.src first :: (marksOf first 0 sd.highlights ++ mIds sd.highlights rest) := by
-    rw [hrest]; simp [mIds]
   have hmm : (pieces.map (·.2)).map (·.s.line) = pieces.map (·.2.s.line) := by simp
   have hL := lineRows_spec sd.gutter sd.highlights
     (fun l => ((lines.find? (·.1 == l)).map (·.2)).getD "")
     (risers (mIds sd.highlights (pieces.map (·.2.s.line))) sd.highlights)
     (statesAt (mIds sd.highlights (pieces.map (·.2.s.line))) sd.highlights)
-    (mIds sd.highlights (pieces.map (·.2.s.line))) first last src
-    (by rw [hids]; exact fun i r hr =>
-          writeRisers_step first last _ sd.highlights hok i r hr)
+    (mIds sd.highlights (pieces.map (·.2.s.line))) src
+    (fun i r hr => writeRisers_step _ sd.highlights
+      (fun k h hk => ⟨hok h (List.mem_of_getElem? hk),
+        fun hm => mIds_ok hsorted hk (hok h (List.mem_of_getElem? hk)) hm⟩) i r hr)
     hok (pieces.map (·.2)) 0
     (by intro sp hsp
         obtain ⟨p, hp, rfl⟩ := List.mem_map.mp hsp
@@ -925,7 +1283,7 @@ theorem writeSpanDisplay_layout (src : Source) (sd : SpanDisplay) (pieces : List
   unfold writeSpanDisplay
   simp only [hlen', if_false, hcollect, hL, hnotes, List.map_nil, String.join_nil,
     String.append_empty]
-  simp only [displayRows_eq, hlines, rowIds_eq first last sd.highlights hok]
+  simp only [displayRows_eq, hlines, rowIds_eq sd.highlights hok]
   rw [intercalate_newline _ (by simp)]
   simp only [List.append_eq, List.cons_append, List.nil_append, List.map_cons, String.join_cons,
     map_mapIdx', writeGutter, Bool.false_eq_true, if_false, String.append_assoc]
@@ -968,6 +1326,30 @@ theorem pieceLines_eq (src : Source) : ∀ (pieces : List Span) (n : Nat) (L : L
         rw [h1]
       · simp only [List.map_cons, numbered, hline, h2]
 
+theorem numbered_ge : ∀ (L : List Text) (n : Nat), ∀ x ∈ (numbered n L).map (·.1), n ≤ x := by
+  intro L
+  induction L with
+  | nil => intro n x hx; simp [numbered] at hx
+  | cons l ls ih =>
+    intro n x hx
+    simp only [numbered, List.map_cons, List.mem_cons] at hx
+    rcases hx with rfl | hx
+    · exact Nat.le_refl _
+    · have := ih (n + 1) x hx; omega
+
+theorem numbered_sorted : ∀ (L : List Text) (n : Nat),
+    ((numbered n L).map (·.1)).Pairwise (· < ·) := by
+  intro L
+  induction L with
+  | nil => intro n; simp [numbered]
+  | cons l ls ih =>
+    intro n
+    simp only [numbered, List.map_cons]
+    refine List.pairwise_cons.mpr ⟨?_, ih (n + 1)⟩
+    intro x hx
+    have := numbered_ge ls (n + 1) x hx
+    omega
+
 theorem numbered_find : ∀ (L : List Text) (n i : Nat) (l : Text), L[i]? = some l →
     (numbered n L).find? (·.1 == n + i) = some (n + i, textString l) := by
   intro L
@@ -1007,7 +1389,7 @@ theorem writeSpanDisplay_layout_canon (m : Metrics) (a mid z : Text)
     (hwf : Text.WF (a ++ mid ++ z)) (sd : SpanDisplay) (hspan : sd.span = widenSpec m a mid z)
     (hnotes : sd.notes = [])
     (hlen : (sd.highlights.filter (·.isMultiline)).length < 256)
-    (hok : ∀ h ∈ sd.highlights, HlOK sd.span.s.line sd.span.e.line h) :
+    (hok : ∀ h ∈ sd.highlights, HlOK h) :
     ∃ pieces n,
       (SplitLines.ofSpan sd.span ⟨a ++ mid ++ z, m, Pos.zero⟩).collect
         (sd.span.e.line - sd.span.s.line + 2) = .ok (pieces, n) ∧
@@ -1023,22 +1405,17 @@ theorem writeSpanDisplay_layout_canon (m : Metrics) (a mid z : Text)
   refine ⟨splitSpec m a0 mid' rem, 0, by rw [hsp]; exact hcol, ?_⟩
   obtain ⟨hl1, hl2⟩ := pieceLines_eq _ _ _ _ hp
   simp only [] at hl1
-  have hL : ∃ l0 ls, linesOf m mid' = l0 :: ls := by
-    cases h : linesOf m mid' with
-    | nil => exact absurd h (linesOf_ne_nil m mid')
-    | cons l0 ls => exact ⟨l0, ls, rfl⟩
-  obtain ⟨l0, ls, hLs⟩ := hL
   have hmap : (splitSpec m a0 mid' rem).map (·.2.s.line) =
       ((splitSpec m a0 mid' rem).map (·.2)).map (·.s.line) := by simp
-  apply writeSpanDisplay_layout _ sd (splitSpec m a0 mid' rem) 0 sd.span.s.line sd.span.e.line
+  apply writeSpanDisplay_layout _ sd (splitSpec m a0 mid' rem) 0
     (by rw [hsp]; exact hcol) hnotes hlen hok
   · rw [hmap]
     simp only [splitSpec] at hl1 hl2 ⊢
     rw [hl1, hl2]
   · rw [hmap]
     simp only [splitSpec] at hl2 ⊢
-    rw [hl2, hLs, hsp]
-    exact ⟨(numbered ((canon m a0).line + 1) ls).map (·.1), by simp [numbered]⟩
+    rw [hl2]
+    exact numbered_sorted _ _
   · intro p hpm
     have hpm' : p.2 ∈ (splitSpec m a0 mid' rem).map (·.2) := List.mem_map.mpr ⟨p, hpm, rfl⟩
     obtain ⟨i, l, h1, h2, h3⟩ := pieces_mem _ _ _ _ hp p.2 hpm'
